@@ -13,11 +13,19 @@
    - the same holds through the DHCP path of Notify.  (Before the repair of session.go notify() the
      statement failed when the notified host itself was offline with a notification pending: the host was
      listed as its own "previous IP" and notified twice; former finding c06-duplicate-dhcp-path-offline-offer.)
-   The history-level "exactly once" statement for the pure frame/purge discipline is the executable
-   change-based expectation of Spec/HostTrackingNotif.v, compared with the implementation and the model
-   on every generated history (spec column of kind t6c); it is not proved as a theorem (partial). *)
+   History level ([C06_exactly_once]): for every disciplined history from NewSession (units: Parse;Notify /
+   purge / Capture / Release; no DHCP offers), at every unit and for EVERY address x, the notifications about x
+   that the unit emits are exactly the ones the CHANGES of the C04 reference run owe for x ([due],
+   Spec/HostTrackingNotif.v: first seen / re-bound / back from offline / registered-but-never-announced =>
+   one online; turned offline by this sighting or aged out => one offline; otherwise none), and everything
+   announced about other addresses precedes the notification about the frame's own address.
+   [C06_contents]: every notification emitted by Notify or purge equals toNotification of the tracked host
+   and MAC entry in the state the step leaves behind (address, MAC, online flag, router flag, names).
+   Scope of the history theorem (partial with respect to the property's quantifier): histories with
+   DHCPv4Update / SetDHCPv4IPOffer / Update*Name are covered by the per-step theorems and by the
+   correspondence run only. *)
 From PV Require Import Base.Prelude Model.Tables Model.TablesKnown Spec.HostTrackingInv Spec.HostTracking
-  Proofs.Tables Proofs.TablesRefine Proofs.TablesNotif.
+  Spec.HostTrackingNotif Proofs.Tables Proofs.TablesRefine Proofs.TablesPred Proofs.TablesNotif Proofs.TablesNotifHist.
 
 Theorem C06_quiet : forall c s f now m k h,
   host_event c f = Some (m, k) -> hlookup k (hosts s) = Some h ->
@@ -84,3 +92,75 @@ Example C06_duplicate_fixed :
             n_mdns (nt_names n) = 2.
 Proof. exact dup_fixed. Qed.
 Print Assumptions C06_duplicate_fixed.
+
+(* ---- history level ---- *)
+
+(* one unit of the discipline, from any state linked to a reference state by [J]:
+   per-address exactly-once, order clause, and the link is kept *)
+Theorem C06_unit_exactly_once : forall c s r u,
+  J s r -> unit_ok c s u ->
+  (forall x, about x (map pair_of (snd (exec c s u))) = due c r (to_u6 u) x) /\
+  order_ok c u (snd (exec c s u)) /\
+  J (fst (exec c s u)) (rnext c r (to_u6 u)).
+Proof. exact unit_once. Qed.
+Print Assumptions C06_unit_exactly_once.
+
+Theorem C06_new_session_linked : forall c now s0,
+  own_mac c <> rt_mac c -> new_session c now = Ok s0 -> J s0 (rinit c now).
+Proof. exact new_session_J. Qed.
+Print Assumptions C06_new_session_linked.
+
+(* all disciplined histories *)
+Theorem C06_exactly_once : forall c now s0 us,
+  own_mac c <> rt_mac c -> new_session c now = Ok s0 -> units_ok c s0 us -> all_once c s0 (rinit c now) us.
+Proof. exact exactly_once_proof. Qed.
+Print Assumptions C06_exactly_once.
+
+(* the executable expectation the dispatch compares (kind t6c) is [due], enumerated over the candidates *)
+Theorem C06_expect_is_due : forall c dom r u x,
+  NoDup dom -> In x dom -> about x (fst (expect c dom r u)) = due c r u x.
+Proof. exact expect_due. Qed.
+Print Assumptions C06_expect_is_due.
+
+(* ---- contents ---- *)
+Theorem C06_contents : forall c s fr k h,
+  Inv s -> lastf s = Some fr -> fr_host fr = Some k -> hlookup k (hosts s) = Some h -> h_dirty h = true ->
+  (List.length (chan s) + List.length (mac_hosts (h_mac h) s) < chan_cap)%nat ->
+  exists em, chan (fst (step c s Notify)) = chan s ++ em /\ Forall (tracked (fst (step c s Notify))) em.
+Proof. exact contents_notify_proof. Qed.
+Print Assumptions C06_contents.
+
+Theorem C06_contents_purge : forall c now order s,
+  Inv s -> NoDup order -> (List.length (chan s) + List.length order < chan_cap)%nat ->
+  exists ns, chan (fst (step c s (Purge now order))) = chan s ++ ns /\
+             Forall (tracked (fst (step c s (Purge now order)))) ns.
+Proof. exact contents_purge_proof. Qed.
+Print Assumptions C06_contents_purge.
+
+(* ---- non-vacuity ---- *)
+Example C06_history_admissible : units_ok std_cfg ex_s0 ex_units.
+Proof. exact ex_units_ok. Qed.
+Print Assumptions C06_history_admissible.
+
+Example C06_history_emissions :
+  emissions std_cfg ex_s0 ex_units =
+  [ [(IP4 3232235521, true)];                                   (* first seen *)
+    [];                                                         (* repeat traffic *)
+    [(IP4 3232235521, false); (IP4 3232235522, true)];          (* IP change: offline before online *)
+    [(IP4 3232235522, true)];                                   (* re-binding *)
+    [];                                                         (* Capture *)
+    [(IP4 3232235522, false); (IP4 3232235531, false)];         (* ageing (the router was never announced) *)
+    [(IP6 338288524927261089654018896841347694593, true)] ].    (* router's link-local address first seen *)
+Proof. exact ex_units_emissions. Qed.
+Print Assumptions C06_history_emissions.
+
+(* reading, made visible: toNotification takes LLMNR from the host and the other four names from the MAC entry *)
+Example C06_names_reading :
+  let s := run std_cfg ex_s0
+      [ ex_rx4 ex_mac1 3232235521 10; Notify; Drain;
+        NameUpdate KLlmnr (IP4 3232235521) 7; NameUpdate KMdns (IP4 3232235521) 8;
+        ex_rx4 ex_mac1 3232235522 20; Notify ] in
+  map (fun n => (nt_ip n, n_llmnr (nt_names n), n_mdns (nt_names n))) (chan s) =
+  [ (IP4 3232235521, 7, 8); (IP4 3232235522, 0, 8) ].
+Proof. exact ex_llmnr_asymmetry. Qed.
+Print Assumptions C06_names_reading.
